@@ -77,18 +77,30 @@ func runConnUDP(t *testing.T, c caseDef) []string {
 		start := time.Now()
 		log := &logger{}
 		closed := false
+		var main *udpclient.Conn
 		onInactive := func(cc *udpclient.Conn) {
+			if cc != main { // the shadow connection (see below)
+				_ = cc.Close()
+				return
+			}
 			closed = true
 			log.add("close")
 			_ = cc.Close()
 		}
+		// the option is applied ONCE; every connection made from it asks its factory for a monitor, as a server does for
+		// each peer.  A second, always silent connection from the same option is ticked along: monitors must not share state.
+		var factory func() udpclient.InactivityMonitor
 		cc, s := mem.NewUDPConn(mem.UDPOpts{Mutate: func(cfg *udpclient.Config) {
 			if c.maxRetries < 0 {
 				options.WithInactivityMonitor(c.period, onInactive).UDPClientApply(cfg)
 			} else {
 				options.WithKeepAlive(uint32(c.maxRetries), c.period*time.Duration(c.maxRetries+1), onInactive).UDPClientApply(cfg)
 			}
+			factory = cfg.CreateInactivityMonitor
 		}})
+		main = cc
+		shadow, _ := mem.NewUDPConn(mem.UDPOpts{Mutate: func(cfg *udpclient.Config) { cfg.CreateInactivityMonitor = factory }})
+		defer func() { _ = shadow.Close() }()
 		pl := &pingLog{mids: map[int]int32{}}
 		collect := func() {
 			for _, d := range s.TakeSent() {
@@ -187,6 +199,7 @@ func runConnUDP(t *testing.T, c caseDef) []string {
 				case "tick":
 					at, _ := strconv.ParseInt(f[1], 10, 64)
 					sleepTo(start, at)
+					shadow.CheckExpirations(time.Now())
 					cc.CheckExpirations(time.Now())
 				}
 			}()
@@ -206,17 +219,24 @@ func runConnTCP(t *testing.T, c caseDef) []string {
 		start := time.Now()
 		log := &logger{}
 		closed := false
+		var main *tcpclient.Conn
 		onInactive := func(cc *tcpclient.Conn) {
+			if cc != main { // the shadow connection
+				_ = cc.Close()
+				return
+			}
 			closed = true
 			log.add("close")
 			_ = cc.Close()
 		}
+		var factory func() tcpclient.InactivityMonitor
 		cc, peer, err := mem.NewTCPConn(mem.TCPOpts{Mutate: func(cfg *tcpclient.Config) {
 			if c.maxRetries < 0 {
 				options.WithInactivityMonitor(c.period, onInactive).TCPClientApply(cfg)
 			} else {
 				options.WithKeepAlive(uint32(c.maxRetries), c.period*time.Duration(c.maxRetries+1), onInactive).TCPClientApply(cfg)
 			}
+			factory = cfg.CreateInactivityMonitor
 		}})
 		if err != nil {
 			for i := range out {
@@ -224,6 +244,16 @@ func runConnTCP(t *testing.T, c caseDef) []string {
 			}
 			return
 		}
+		main = cc
+		// a second, always silent connection made from the same option (see runConnUDP)
+		shadow, shadowPeer, errS := mem.NewTCPConn(mem.TCPOpts{Mutate: func(cfg *tcpclient.Config) { cfg.CreateInactivityMonitor = factory }})
+		if errS != nil {
+			for i := range out {
+				out[i] = "conn-error"
+			}
+			return
+		}
+		defer func() { _ = shadow.Close(); shadowPeer.Close() }()
 		synctest.Wait()
 		pl := &pingLog{toks: map[int][]byte{}}
 		collect := func() {
@@ -250,6 +280,7 @@ func runConnTCP(t *testing.T, c caseDef) []string {
 			_ = peer.Write(append([]byte(nil), b...))
 		}
 		n := byte(0)
+		trickling := false
 		for i, f := range c.ops {
 			if closed {
 				out[i] = "none"
@@ -299,9 +330,20 @@ func runConnTCP(t *testing.T, c caseDef) []string {
 						m.SetToken(message.Token{0x01})
 					}
 					send(m)
+				case "trickle":
+					// the peer sends the next byte(s) of ONE big frame that it never completes: bytes, but no message
+					at, _ := strconv.ParseInt(f[1], 10, 64)
+					sleepTo(start, at)
+					if !trickling {
+						trickling = true
+						_ = peer.Write([]byte{0xd0, 0xff}) // Len nibble 13 (+255+13 bytes), TKL 0: header of a 270-byte frame
+					} else {
+						_ = peer.Write([]byte{0x00})
+					}
 				case "tick":
 					at, _ := strconv.ParseInt(f[1], 10, 64)
 					sleepTo(start, at)
+					shadow.CheckExpirations(time.Now())
 					cc.CheckExpirations(time.Now())
 				}
 			}()
@@ -358,7 +400,7 @@ func TestC18(t *testing.T) {
 			flush(w)
 			fmt.Fprintln(w, "end")
 		case cur != nil && (f[0] == "recv" && len(f) == 2 || f[0] == "pong" && len(f) == 3 || f[0] == "tick" && len(f) == 2 ||
-			f[0] == "tickf" && len(f) == 2 || f[0] == "recvk" && len(f) == 3):
+			f[0] == "tickf" && len(f) == 2 || f[0] == "recvk" && len(f) == 3 || f[0] == "trickle" && len(f) == 2):
 			cur.ops = append(cur.ops, f)
 		default:
 			flush(w)
